@@ -13,6 +13,7 @@ import TB.Spec.BencodeSpec
 import TB.Spec.LayoutSpec
 import TB.Spec.MetainfoSpec
 import TB.Streams
+import TB.StreamsRun
 open TB TB.Proto
 
 partial def loop (h : IO.FS.Stream) (out : IO.FS.Stream) : IO Unit := do
@@ -20,7 +21,12 @@ partial def loop (h : IO.FS.Stream) (out : IO.FS.Stream) : IO Unit := do
   if line.isEmpty then return ()
   let l := line.trimAscii.toString
   if !l.isEmpty then
-    out.putStrLn (TB.Streams.answer l)
+    let ts := (l.splitOn " ").filter (· != "")
+    match ts with
+    | "run" :: rest =>
+      let (req, obs) := TB.Streams.splitBar rest
+      out.putStrLn (TB.Streams.handleRun req obs)
+    | _ => out.putStrLn (TB.Streams.answer l)
   loop h out
 
 def main : IO Unit := do
